@@ -175,6 +175,23 @@ fn mix_program(site: &str) -> String {
         "underlying-as-newtype" => "def main() -> None:\n    p: Pos = 3\n    show(p)\n",
         "newtype-as-underlying" => "def take(n: int) -> int:\n    return n\n\ndef main() -> None:\n    k: int = Pos(3)\n    println(f\"{k}\")\n",
         "compare" => "def main() -> None:\n    a = Pos(3)\n    b = Other(3)\n    if a == b:\n        println(\"same\")\n",
+        "append" => "def main() -> None:\n    mut xs: List[Pos] = []\n    xs.append(Other(3))\n    show(xs[0])\n",
+        "append-nonempty" => "def main() -> None:\n    mut xs: List[Pos] = [Pos(1)]\n    xs.append(Other(3))\n    show(xs[1])\n",
+        "insert" => "def main() -> None:\n    mut xs: List[Pos] = []\n    xs.insert(0, Other(3))\n    show(xs[0])\n",
+        "extend" => "def main() -> None:\n    mut xs: List[Pos] = []\n    xs.extend([Other(3)])\n    show(xs[0])\n",
+        "index-assign" => "def main() -> None:\n    mut xs: List[Pos] = [Pos(1)]\n    xs[0] = Other(3)\n    show(xs[0])\n",
+        "dict-annot" => "def main() -> None:\n    d: Dict[str, Pos] = {\"a\": Other(3)}\n    show(d[\"a\"])\n",
+        "dict-store" => "def main() -> None:\n    mut d: Dict[str, Pos] = {}\n    d[\"a\"] = Other(3)\n    show(d[\"a\"])\n",
+        "option" => "def main() -> None:\n    o: Option[Pos] = Some(Other(3))\n    show(o.unwrap())\n",
+        "result" => "def mk() -> Result[Pos, str]:\n    return Ok(Other(3))\n\ndef main() -> None:\n    show(mk().unwrap())\n",
+        "tuple" => "def main() -> None:\n    t: Tuple[Pos, int] = (Other(3), 1)\n    show(t.0)\n",
+        "field-assign" => "def main() -> None:\n    mut h = Holder(p=Pos(1))\n    h.p = Other(3)\n    show(h.p)\n",
+        "method-arg" => "class Taker:\n    k: int\n\n    def take(self, p: Pos) -> None:\n        show(p)\n\ndef main() -> None:\n    t = Taker(k=1)\n    t.take(Other(3))\n",
+        "kwarg" => "def main() -> None:\n    show(p=Other(3))\n",
+        "default" => "def d(p: Pos = Other(3)) -> None:\n    show(p)\n\ndef main() -> None:\n    d(Pos(1))\n",
+        "comprehension" => "def main() -> None:\n    os = [Other(3), Other(4)]\n    xs: List[Pos] = [o for o in os]\n    show(xs[0])\n",
+        "match-arm" => "def pick(f: bool) -> Pos:\n    match f:\n        true => return Other(3)\n        false => return Pos(1)\n\ndef main() -> None:\n    show(pick(true))\n",
+        "arith" => "def main() -> None:\n    a = Pos(3)\n    b = Other(3)\n    c = a.0 + b.0\n    p: Pos = b\n    show(p)\n",
         _ => "def main() -> None:\n    pass\n",
     });
     s
@@ -234,7 +251,9 @@ pub fn run(out: &mut Out, tier: &str, seed: u64, _scratch: &str) {
         }
     }
     let n_site = cases.len();
-    let mix_sites = ["let-annot", "return", "arg", "field", "reassign", "list-annot", "underlying-as-newtype", "newtype-as-underlying", "compare"];
+    let mix_sites = ["let-annot", "return", "arg", "field", "reassign", "list-annot", "underlying-as-newtype", "newtype-as-underlying", "compare",
+        "append", "append-nonempty", "insert", "extend", "index-assign", "dict-annot", "dict-store", "option", "result", "tuple", "field-assign",
+        "method-arg", "kwarg", "default", "comprehension", "match-arm", "arith"];
     for site in mix_sites {
         reqs.push(format!("c17 mix {site}"));
         cases.push(Case { name: String::new(), source: mix_program(site) });
